@@ -46,17 +46,35 @@ CLAIM = {
             'exceeds the power for every multiplier satisfying the Newton contract; the repaired svd initialisation '
             'keeps exactly Ns singular vectors.  Negative witnesses for the design-round code (stale full_F / full_W_H, '
             'half-built cache, sqrt(Ns)-norm min-leakage iterates failing the assertion, wrong svd column count).',
-    'note': 'trusted: numpy/scipy kernels (eig, solve, pinv, inv, svd, newton) as contract parameters checked '
-            'numerically per case; binary64 rounding (1e-9, scaled by the condition number of the equivalent channel for '
-            'the filters); the harness.  Model of solve = its effect on the eight attributes (the algorithms\' numeric '
-            'content is covered by the formula correspondence, the contracts and the oracles).  Monotonicity is proved '
-            'for iterations that start from a feasible pair; it is not claimed for the very first step from a random / '
-            'closed-form / alt-min start with Ns >= 2 (that start is not a competitor of the eigenvector updates).  Out of the model: arrays whose length is not K, Python lists instead of '
-            'object arrays, the diagonal-loading and mu>1e20 retry branches of MMSE (pragma: no cover), '
-            '_solve_finalize stream reduction, the MaxSINR update formulas (only the generic clauses), '
-            'GreedStream/BruteForce wrappers.  Guard: a solve() rejected for its power has already overwritten _Ns '
-            '(theorem rejected_solve_overwrites_ns).  max-SINR / MMSE are exercised with a positive noise variance '
-            '(their covariances are singular without noise when there are few interferers).',
+    'note': 'trusted: numpy/scipy kernels (eig, solve, pinv, inv, svd, newton/brentq) as contract parameters checked '
+            'numerically per case; binary64 rounding (1e-9 RELATIVE to the data, scaled by the condition number of the '
+            'equivalent channel for the filters; 1e-11 for the exact-power relation); the harness.  Model of solve = its '
+            'effect on the eight attributes (the algorithms\' numeric content is covered by the formula correspondence, '
+            'the contracts and the oracles).  Monotonicity is proved for iterations that start from a feasible pair; it '
+            'is not claimed for the very first step from a random / closed-form / alt-min start with Ns >= 2.  '
+            'ROBUSTNESS CLASSES.  R4 rejected calls: by theorem (rejected_call_leaves_object_unchanged, '
+            'history_ignores_rejected_calls: every mutator that raises leaves the eight attributes unchanged and the later '
+            'history is that of an object that never saw the call; bad_power_rejected, bad_setter_arguments_rejected) + '
+            'correspondence (rejected P / randomizeF / set_precoders / set_receive_filters / solve / initialize_with in the '
+            'middle of histories) + oracle (every observable before/after, twin object that skips the rejected calls).  '
+            'R6 scale: by theorem for the relations (scaled_precoder_power_exact, full_filter_identity, '
+            'power_setter_refreshes_full_F hold for EVERY accepted power, however small or close to the previous one) + '
+            'correspondence/oracles at powers 1e-15..1e6, channel gains 1e-6..1e6, relative power changes 1e-8..1e-5, all '
+            'comparisons relative.  R7 call order / long-lived objects: by theorem for the eight attributes '
+            '(coherent_history etc. hold for every order and repetition of the mutators) + oracle (twin object, second '
+            'solver sharing the channel object, channel unchanged, final solve equals that of a freshly built solver).  '
+            'R5 boundaries: the theorems hold for every K (K = 1 included) and every power > 0; K = 1, max_iterations = 0, '
+            'noise 0.0, P = 0 / 1 / None, Ns = 1 and min(Nt,Nr)-1 by correspondence/oracle.  R1 element types, R2 layout / '
+            'shape, R3 argument immutability / output independence: by correspondence and oracle only (the model is a '
+            'function of the logical values: typed, strided, read-only, list/tuple, 0-d and narrow-dtype arguments are '
+            'mapped to the same model input and must give the model\'s outputs; arguments are snapshotted before every call '
+            'and compared after it and after every later call, returned arrays are compared with the model value again at '
+            'the end of the history, internals must not share memory with arguments).  Out of the model: arrays whose '
+            'length is not K, the diagonal-loading and mu>1e20 retry branches of MMSE (pragma: no cover), '
+            '_solve_finalize stream reduction, the MaxSINR update formulas (only the generic clauses), the \'fix\' '
+            'initialisation mode, GreedStream/BruteForce wrappers, the channel class itself (C08).  max-SINR / MMSE are '
+            'exercised with a positive noise variance (their covariances are singular without noise when there are few '
+            'interferers).',
 }
 
 SOLVERS = ['closed', 'altmin', 'minleak', 'maxsinr', 'mmse']
@@ -135,8 +153,14 @@ def mat_close(a, b, rtol=1e-9, scale=None):
         return True
     if not (np.all(np.isfinite(a)) and np.all(np.isfinite(b))):
         return False
-    s = max(1.0, float(np.abs(a).max()), float(np.abs(b).max())) if scale is None else scale
+    # relative to the magnitude of the data (class R6: no absolute floor)
+    s = max(float(np.abs(a).max()), float(np.abs(b).max())) if scale is None else scale
     return float(np.abs(a - b).max()) <= rtol * s
+
+
+def rel_close(a, b, rtol=1e-9, ref=None):
+    r = max(abs(a), abs(b)) if ref is None else ref
+    return abs(a - b) <= rtol * r
 
 
 def arr_close(x, y, rtol=1e-9):
@@ -157,15 +181,206 @@ def err_kind(e):
 
 
 # ------------------------------------------------------------------ systems
-def build_channel(K, Nr, Nt, seed, noise=None):
-    mu, _, _, _ = _mods()
+def channel_matrix(K, Nr, Nt, seed, scale=1.0, grid=False):
+    """the logical (complex128) big channel matrix of a case"""
     rs = np.random.RandomState(seed)
-    M = cplx(rs, int(sum(Nr)), int(sum(Nt)))
+    if grid:      # Gaussian integers / 4: exact in every float and (when real) integer type
+        M = (rs.randint(-8, 9, size=(int(sum(Nr)), int(sum(Nt)))) + 1j * rs.randint(-8, 9, size=(int(sum(Nr)), int(sum(Nt))))) / 4.0
+    else:
+        M = cplx(rs, int(sum(Nr)), int(sum(Nt)))
+    return M * scale
+
+
+def build_channel(K, Nr, Nt, seed, noise=None, scale=1.0, ty=None):
+    """`scale` multiplies the whole channel (class R6; a noise variance is scaled with scale^2 by the caller);
+    `ty` passes the same values with another element type / memory layout (classes R1, R2)"""
+    mu, _, _, _ = _mods()
+    M = channel_matrix(K, Nr, Nt, seed, scale, grid=ty in ('c64',))
+    if ty is not None:
+        M = vary_mat(M, ty)
+    else:
+        M = np.array(M)
     ch = mu.MultiUserChannelMatrix()
     ch.init_from_channel_matrix(M, np.array(Nr, dtype=int), np.array(Nt, dtype=int), K)
     if noise is not None:
         ch.noise_var = noise
     return ch
+
+
+def case_channel(case):
+    sc = case.get('chan_scale', 1.0)
+    nz = case.get('noise')
+    return build_channel(case['K'], case['Nr'], case['Nt'], case['chan_seed'],
+                         None if nz is None else nz * sc * sc, sc, case.get('chan_ty'))
+
+
+# ------------------------------------------------------------------ classes R1 / R2: the same values, passed differently
+INT_SCALARS = ['int8', 'uint8', 'int16', 'uint16', 'int32', 'int64']
+
+
+def vary_scalar(x, ty):
+    if ty is None or ty == 'float':
+        return float(x)
+    if ty == 'int':
+        return int(x)
+    if ty == '0d':
+        return np.array(float(x))
+    if ty == '0d-int':
+        return np.array(int(x))
+    return getattr(np, ty[3:])(x)           # 'np:<dtype>'
+
+
+def scalar_types(x):
+    """element types that hold the value x exactly"""
+    out = ['float', 'np:float64', '0d']
+    if float(x).is_integer() and 0 < x < 120:
+        out += ['int', '0d-int'] + ['np:' + t for t in INT_SCALARS]
+    with np.errstate(all='ignore'):
+        if float(np.float32(x)) == float(x):
+            out.append('np:float32')
+        if float(np.float16(x)) == float(x):
+            out.append('np:float16')
+    return out
+
+
+def vary_vec(v, ty):
+    v = [float(x) for x in v]
+    n = len(v)
+    if ty is None or ty == 'arr':
+        return np.array(v, dtype=float)
+    if ty == 'list':
+        return list(v)
+    if ty == 'tuple':
+        return tuple(v)
+    if ty == 'intlist':
+        return [int(x) for x in v]
+    if ty == 'strided':
+        big = np.zeros(2 * n + 1)
+        big[1::2] = v
+        return big[1::2]
+    if ty == 'reversed':
+        return np.array(v[::-1])[::-1]
+    if ty == 'broadcast':
+        return np.broadcast_to(np.float64(v[0]), (n,))
+    if ty == 'readonly':
+        a = np.array(v)
+        a.setflags(write=False)
+        return a
+    return np.array(v).astype(ty[4:])        # 'arr:<dtype>'
+
+
+def vec_types(v):
+    out = ['arr', 'list', 'tuple', 'strided', 'reversed', 'readonly']
+    if len(set(v)) == 1:
+        out.append('broadcast')
+    if all(float(x).is_integer() and 0 < x < 120 for x in v):
+        out += ['intlist', 'arr:int16', 'arr:int32', 'arr:int64', 'arr:uint8']
+    with np.errstate(all='ignore'):
+        if all(float(np.float32(x)) == float(x) for x in v):
+            out.append('arr:float32')
+        if all(float(np.float16(x)) == float(x) for x in v):
+            out.append('arr:float16')
+    return out
+
+
+def vary_mat(A, ty):
+    A = np.array(A, dtype=complex)
+    r, c = A.shape
+    if ty is None or ty == 'c':
+        return A
+    if ty == 'fortran':
+        return np.asfortranarray(A)
+    if ty == 'transposed':
+        return np.ascontiguousarray(A.T).T
+    if ty == 'strided':
+        big = np.zeros((2 * r + 1, 3 * c + 2), dtype=complex)
+        big[1::2, 2::3] = A
+        return big[1::2, 2::3]
+    if ty == 'reversed':
+        return np.array(A[::-1, ::-1])[::-1, ::-1]
+    if ty == 'readonly':
+        B = A.copy()
+        B.setflags(write=False)
+        return B
+    if ty == 'c64':
+        return A.astype(np.complex64)
+    if ty == 'real':
+        return np.array(A.real, dtype=float)
+    if ty == 'f32':
+        return np.array(A.real, dtype=np.float32)
+    if ty == 'int':
+        return np.array(np.round(A.real), dtype=np.int64)
+    if ty == 'int16':
+        return np.array(np.round(A.real), dtype=np.int16)
+    raise core.Infra('unknown matrix variant %r' % ty)
+
+
+def mat_types(mats):
+    """variants under which every matrix of the list keeps exactly its values"""
+    out = ['c', 'fortran', 'transposed', 'strided', 'reversed', 'readonly']
+    with np.errstate(all='ignore'):
+        if all(np.array_equal(np.asarray(m).astype(np.complex64).astype(complex), m) for m in mats):
+            out.append('c64')
+        if all(np.all(np.asarray(m).imag == 0) for m in mats):
+            out.append('real')
+            if all(np.array_equal(np.asarray(m).real.astype(np.float32).astype(float), np.asarray(m).real) for m in mats):
+                out.append('f32')
+            if all(np.all(np.asarray(m).real == np.round(np.asarray(m).real)) for m in mats):
+                out += ['int', 'int16']
+    return out
+
+
+def vary_container(mats, cty):
+    if mats is None:
+        return None
+    if cty == 'list':
+        return list(mats)
+    if cty == 'tuple':
+        return tuple(mats)
+    return objarr(mats)
+
+
+def gen_grid_unit(seed, rows, cols, real=False):
+    """unit Frobenius norm matrices whose entries are exact in every float type: 4^j entries of modulus 2^-j.
+    The top c x c block is diagonal and every other non-zero lies below it, so the matrix has full column rank
+    (no exactly singular equivalent channel: a discrete decision the model and LAPACK need not take alike)"""
+    rs = np.random.RandomState(seed)
+    out = []
+    for r, c in zip(rows, cols):
+        js = [j for j in (0, 1, 2) if c <= 4 ** j <= c + max(0, r - c) * c]
+        j = js[rs.randint(0, len(js))] if js else None
+        if j is None:       # not representable: an ordinary random unit-norm matrix
+            x = cplx(rs, r, c)
+            out.append(x / fro(x))
+            continue
+        cnt, mod = 4 ** j, 2.0 ** -j
+        phases = np.array([1, -1]) if real else np.array([1, 1j, -1, -1j])
+        A = np.zeros((r, c), dtype=complex)
+        for i in range(c):
+            A[i, i] = mod * phases[rs.randint(0, len(phases))]
+        below = [(i, k) for i in range(c, r) for k in range(c)]
+        for idx in rs.permutation(len(below))[:cnt - c]:
+            A[below[idx]] = mod * phases[rs.randint(0, len(phases))]
+        out.append(A)
+    return out
+
+
+def gen_grid(seed, rows, cols, real=False, integer=False):
+    """matrices with small dyadic (or integer) entries and full column rank (diagonal top block)"""
+    rs = np.random.RandomState(seed)
+    out = []
+    for r, c in zip(rows, cols):
+        den = 1.0 if integer else 4.0
+        A = rs.randint(-4, 5, size=(r, c)) / den
+        if not real:
+            A = A + 1j * rs.randint(-4, 5, size=(r, c)) / den
+        A = np.array(A, dtype=complex)
+        m = min(r, c)
+        A[:m, :m] = 0
+        for i in range(m):
+            A[i, i] = rs.choice([1, 2, 3, -1, -2]) / den
+        out.append(A)
+    return out
 
 
 def make_solver(kind, ch, best=False):
@@ -188,11 +403,16 @@ def Hkl(ch, k, l):
 
 
 def parg_py(p):
+    """p = None | ('s', x[, type]) | ('v', [..][, type]) | ('m', [..], shape-kind)"""
     if p is None:
         return None
+    ty = p[2] if len(p) > 2 else None
     if p[0] == 's':
-        return float(p[1])
-    return np.array(p[1], dtype=float)
+        return vary_scalar(p[1], ty)
+    if p[0] == 'm':        # not 0- or 1-dimensional
+        a = np.array(p[1], dtype=float)
+        return {'col': a.reshape(-1, 1), 'row': a.reshape(1, -1), '3d': a.reshape(-1, 1, 1)}[ty or 'col']
+    return vary_vec(p[1], ty)
 
 
 def parg_tok(p):
@@ -200,6 +420,8 @@ def parg_tok(p):
         return 'n'
     if p[0] == 's':
         return 's' + core.f2s(p[1])
+    if p[0] == 'm':
+        return 'm'
     return 'v' + ','.join(core.f2s(x) for x in p[1])
 
 
@@ -208,7 +430,16 @@ def parg_valid(p, K):
         return True
     if p[0] == 's':
         return p[1] > 0
+    if p[0] == 'm':
+        return False
     return len(p[1]) == K and all(x > 0 for x in p[1])
+
+
+def parg_tag(p):
+    if p is None or len(p) < 3 or p[2] is None:
+        return None
+    return ('R2' if p[2] in ('0d', '0d-int', 'strided', 'reversed', 'broadcast', 'readonly', 'col', 'row', '3d') else 'R1') \
+        + ':P:' + str(p[2])
 
 
 def parg_vec(p, K):
@@ -219,16 +450,54 @@ def parg_vec(p, K):
     return [float(x) for x in p[1]]
 
 
+def ns_val(ns):
+    return ns['v'] if isinstance(ns, dict) else ns
+
+
 def ns_py(ns):
-    return int(ns) if isinstance(ns, int) else np.array(ns, dtype=int)
+    """ns = int | [..] | {'v': int | [..], 'ty': how to pass it}"""
+    v = ns_val(ns)
+    ty = ns.get('ty') if isinstance(ns, dict) else None
+    if isinstance(v, int):
+        if ty is None or ty == 'int':
+            return int(v)
+        return getattr(np, ty[3:])(v)            # numpy integer scalar
+    if ty is None or ty == 'arr':
+        return np.array(v, dtype=int)
+    if ty == 'list':
+        return [int(x) for x in v]
+    if ty == 'tuple':
+        return tuple(int(x) for x in v)
+    if ty == 'strided':
+        big = np.zeros(2 * len(v), dtype=int)
+        big[::2] = v
+        return big[::2]
+    if ty == 'reversed':
+        return np.array(v[::-1], dtype=int)[::-1]
+    return np.array(v).astype(ty[4:])
 
 
 def ns_tok(ns):
-    return 'i%d' % ns if isinstance(ns, int) else 'l' + ','.join(str(int(x)) for x in ns)
+    v = ns_val(ns)
+    return 'i%d' % v if isinstance(v, int) else 'l' + ','.join(str(int(x)) for x in v)
 
 
 def ns_list(ns, K):
-    return [int(ns)] * K if isinstance(ns, int) else [int(x) for x in ns]
+    v = ns_val(ns)
+    return [int(v)] * K if isinstance(v, int) else [int(x) for x in v]
+
+
+def ns_tag(ns):
+    if not isinstance(ns, dict) or ns.get('ty') in (None, 'int', 'arr'):
+        return None
+    return ('R2' if ns['ty'] in ('strided', 'reversed') else 'R1') + ':Ns:' + ns['ty']
+
+
+def vary_ns(rng, v):
+    """a typed / laid-out variant of a stream-count argument"""
+    if isinstance(v, int):
+        return {'v': v, 'ty': rng.choice(['np:' + t for t in INT_SCALARS])}
+    return {'v': v, 'ty': rng.choice(['list', 'tuple', 'strided', 'reversed', 'arr:int16', 'arr:int32', 'arr:uint8', 'arr:int64'])}
 
 
 def gen_unit(seed, rows, cols):
@@ -241,35 +510,78 @@ def gen_unit(seed, rows, cols):
 
 
 # ------------------------------------------------------------------ histories
+INIT_MODES = ['random', 'alt_min', 'closed_form', 'fix', 'svd']
+
+
+def init_accepted(kind, value):
+    """does `solver.initialize_with = value` succeed on this solver class"""
+    if not isinstance(value, str) or value not in INIT_MODES:
+        return False
+    return not (kind == 'altmin' and value == 'alt_min')
+
+
+def seed_solver(s, seed):
+    """every random draw of a solve comes from these generators"""
+    s._rs = np.random.RandomState(seed)
+    inner = getattr(s, '_alt_min_ia_solver', None)
+    if inner is not None:
+        inner._rs = np.random.RandomState((seed + 1) % (2 ** 31))
+    np.random.seed(seed % (2 ** 32))
+
+
 class Hist:
     """executes one history on the real solver, producing the impl outputs and the model op tokens"""
 
-    def __init__(self, case):
+    def __init__(self, case, ch=None):
         self.case = case
         self.K = case['K']
         self.Nr = case['Nr']
         self.Nt = case['Nt']
-        self.ch = build_channel(self.K, self.Nr, self.Nt, case['chan_seed'], case.get('noise'))
+        self.ch = ch if ch is not None else case_channel(case)
         self.kind = case['solver']
         self.s = make_solver(self.kind, self.ch, best=case.get('best', False))
         if hasattr(self.s, 'max_iterations'):
             self.s.max_iterations = case.get('iters', 3)
+        self.mode = 'random'     # the initialisation mode in force
         self.tokens = []
         self.outs = []
+        self.tags = []           # R-class tags of the variant arguments of each op
+        self.last_inputs = []    # (label, object) handed to the implementation by the last op
+        self.last_returned = None
         self.aborted = None      # (index, exception) of a solve that raised although it is defined
 
     def hd_token(self):
         return enc_arr([Hkl(self.ch, k, k) for k in range(self.K)])
+
+    def note(self, *tags):
+        self.tags[-1] += [t for t in tags if t]
+
+    def inputs(self, *pairs):
+        """remember every array / container handed to the implementation, with a snapshot taken BEFORE the call"""
+        self.last_inputs = [(lab, obj, freeze(obj)) for lab, obj in pairs
+                            if isinstance(obj, (np.ndarray, list, tuple))]
 
     # -- one op ------------------------------------------------------------
     def do(self, op):
         name = op[0]
         s = self.s
         K = self.K
+        self.tags.append([])
+        self.last_inputs = []
+        self.last_returned = None
         try:
             if name == 'setP':
                 self.tokens.append('setP;' + parg_tok(op[1]))
-                s.P = parg_py(op[1])
+                v = parg_py(op[1])
+                self.note(parg_tag(op[1]))
+                self.inputs(('P', v))
+                s.P = v
+                return ('unit',)
+            if name == 'setinit':
+                ok = init_accepted(self.kind, op[1])
+                self.tokens.append('setinit;%d' % (1 if ok else 0))
+                s.initialize_with = op[1]
+                self.mode = op[1]
                 return ('unit',)
             if name == 'rand':
                 _, ns, p, seed = op
@@ -279,7 +591,10 @@ class Hist:
                 drawn = [misc.randn_c_RS(rs2, self.Nt[k], nsl[k]) for k in range(K)]
                 self.tokens.append('rand;%s;%s;%s' % (enc_arr(drawn), ns_tok(ns), parg_tok(p)))
                 s._rs = np.random.RandomState(seed)
-                s.randomizeF(ns_py(ns), parg_py(p))
+                a, b = ns_py(ns), parg_py(p)
+                self.note(ns_tag(ns), parg_tag(p))
+                self.inputs(('Ns', a), ('P', b))
+                s.randomizeF(a, b)
                 return ('unit',)
             if name == 'setprec':
                 d = op[1]
@@ -287,17 +602,33 @@ class Hist:
                 P = d.get('P')
                 self.tokens.append('setprec;%s;%s;%s' % (enc_arr(F), enc_arr(fF),
                                                        '-' if P is None else ','.join(core.f2s(x) for x in P)))
-                s.set_precoders(F=None if F is None else objarr(F), full_F=None if fF is None else objarr(fF),
-                                P=None if P is None else np.array(P, dtype=float))
+                mty, cty, pty = d.get('mty'), d.get('cty'), d.get('pty')
+                Fa = None if F is None else vary_container([vary_mat(m, mty) for m in F], cty)
+                fa = None if fF is None else vary_container([vary_mat(m, mty) for m in fF], cty)
+                Pa = None if P is None else vary_vec(P, pty)
+                self.note('R%s:mat:%s' % ('1' if mty in ('c64', 'real', 'f32', 'int', 'int16') else '2', mty) if mty not in (None, 'c') else None,
+                          'R1:container:%s' % cty if cty in ('list', 'tuple') else None,
+                          parg_tag(('v', P, pty)) if P is not None else None)
+                self.inputs(('F', Fa), ('full_F', fa), ('P', Pa))
+                s.set_precoders(F=Fa, full_F=fa, P=Pa)
                 return ('unit',)
             if name == 'setfilt':
                 d = op[1]
-                W = gen_unit(d['seed'], self.Nr, d['ns'])
+                if d.get('grid'):
+                    W = gen_grid(d['seed'], self.Nr, d['ns'], real=d.get('real', False), integer=d.get('integer', False))
+                else:
+                    W = gen_unit(d['seed'], self.Nr, d['ns'])
                 which = d['which']
+                mty, cty = d.get('mty'), d.get('cty')
                 wh = [Hm(w) for w in W] if which in ('WH', 'both') else None
                 w = W if which in ('W', 'both') else None
                 self.tokens.append('setfilt;%s;%s' % (enc_arr(wh), enc_arr(w)))
-                s.set_receive_filters(W_H=None if wh is None else objarr(wh), W=None if w is None else objarr(w))
+                wha = None if wh is None else vary_container([vary_mat(m, mty) for m in wh], cty)
+                wa = None if w is None else vary_container([vary_mat(m, mty) for m in w], cty)
+                self.note('R%s:mat:%s' % ('1' if mty in ('c64', 'real', 'f32', 'int', 'int16') else '2', mty) if mty not in (None, 'c') else None,
+                          'R1:container:%s' % cty if cty in ('list', 'tuple') else None)
+                self.inputs(('W_H', wha), ('W', wa))
+                s.set_receive_filters(W_H=wha, W=wa)
                 return ('unit',)
             if name == 'solve':
                 return self.do_solve(op)
@@ -320,9 +651,12 @@ class Hist:
                 return self.arr_out(s.full_W) + (self.filter_cond(),)
             if name == 'rNs':
                 v = s.Ns
+                self.last_returned = v
                 return ('ns', None if v is None else [int(x) for x in v])
             if name == 'rP':
-                return ('pow', [float(x) for x in s.P])
+                v = s.P
+                self.last_returned = v
+                return ('pow', [float(x) for x in np.asarray(v).reshape(-1)])
             raise core.Infra('unknown op %r' % (name,))
         except core.Infra:
             raise
@@ -331,6 +665,16 @@ class Hist:
 
     def precoder_args(self, d):
         ns = d['ns']
+        if d.get('grid'):
+            real = d.get('real', False)
+            F = gen_grid_unit(d['F'], self.Nt, ns, real) if d.get('F') is not None else None
+            fF = None
+            if d.get('fullF') is not None:
+                # a power of two not above sqrt(P): exact, and within the power in force
+                amp = [2.0 ** math.floor(math.log2(math.sqrt(p))) for p in d['amp_P']]
+                base = F if F is not None else gen_grid_unit(d['fullF'] + 1, self.Nt, ns, real)
+                fF = [b * a for b, a in zip(base, amp)]
+            return F, fF
         F = gen_unit(d['F'], self.Nt, ns) if d.get('F') is not None else None
         fF = None
         if d.get('fullF') is not None:
@@ -347,12 +691,12 @@ class Hist:
         try:
             WH = s._W_H if s._W_H is not None else [Hm(w) for w in s._W]
             fF = s._full_F
-            return max(float(np.linalg.cond(WH[k] @ Hkl(self.ch, k, k) @ fF[k])) for k in range(self.K))
+            return max(float(np.linalg.cond(np.asarray(WH[k]) @ Hkl(self.ch, k, k) @ np.asarray(fF[k]))) for k in range(self.K))
         except Exception:
             return 1.0
 
-    @staticmethod
-    def arr_out(v):
+    def arr_out(self, v):
+        self.last_returned = v
         if v is None:
             return ('none',)
         return ('arr', [None if m is None else np.array(m) for m in v])
@@ -365,10 +709,13 @@ class Hist:
         expect_err = (closed and K != 3) or not parg_valid(p, K)
         if hasattr(s, 'initialize_with') and init is not None:
             s.initialize_with = init
-        s._rs = np.random.RandomState(seed)
-        np.random.seed(seed % (2 ** 32))
+            self.mode = init
+        seed_solver(s, seed)
+        a, b = ns_py(ns), parg_py(p)
+        self.note(ns_tag(ns), parg_tag(p))
+        self.inputs(('Ns', a), ('P', b))
         try:
-            s.solve(ns_py(ns), parg_py(p))
+            s.solve(a, b)
             raised = None
         except Exception as e:
             raised = e
@@ -396,9 +743,11 @@ class Hist:
         return ('unit',)
 
     def run(self):
+        self.kept = []      # per op: the object a getter returned, the arguments handed over (with snapshots)
         for op in self.case['ops']:
             out = self.do(op)
             self.outs.append(out)
+            self.kept.append((self.last_returned, list(self.last_inputs)))
             if self.aborted is not None:
                 break
         return self
@@ -459,17 +808,53 @@ def gen_dims(rng, K, square=None):
     return Nr, Nt
 
 
-def gen_parg(rng, K, bad=0.12):
+SQUARES = [0.25, 1.0, 2.25, 4.0, 9.0, 16.0, 6.25]      # exact square roots
+MANT = [1.0, 2.25, 4.0, 0.7, 3.3, 12.5, 2.5]
+BAD_INIT = ['bogus', 'SVD', '', 'randomm', 'alt-min']
+
+
+def gen_power_value(rng):
+    """one linear power; class R6: 30 % of them far from 1 (1e-15 ... 1e6)"""
+    r = rng.uniform()
+    if r < 0.45:
+        return rng.choice(SQUARES)
+    if r < 0.70:
+        return rng.choice(MANT)
+    return rng.choice(MANT) * 10.0 ** rng.randint(-15, 6)
+
+
+def typed(rng, p, prob=0.35):
+    """attach an element-type / layout variant to a power argument (classes R1, R2)"""
+    if p is None or p[0] == 'm' or not rng.chance(prob):
+        return p
+    if p[0] == 's':
+        return ('s', p[1], rng.choice(scalar_types(p[1]))) if p[1] > 0 else ('s', p[1], rng.choice(['float', 'int', 'np:int16', '0d'] if float(p[1]).is_integer() else ['float', '0d']))
+    if len(p[1]) == 0:
+        return p
+    return ('v', p[1], rng.choice(vec_types(p[1])))
+
+
+def gen_parg(rng, K, bad=0.12, cur=None):
+    """a power argument.  `cur` = the power in force: 12 % of the accepted arguments are a tiny relative change
+    of it (class R6: a change of the power is a change, however small)"""
     r = rng.uniform()
     if r < bad:
-        return rng.choice([('s', 0.0), ('s', -1.5), ('v', [1.0] * (K + 1)), ('v', [1.0] * (K - 1)),
-                           ('v', [2.0] * (K - 1) + [0.0]), ('v', [-1.0] + [2.0] * (K - 1))])
-    if r < bad + 0.15:
+        return typed(rng, rng.choice([('s', 0.0), ('s', -1.5), ('s', -2.0), ('v', [1.0] * (K + 1)), ('v', [1.0] * (K - 1)),
+                                      ('v', [2.0] * (K - 1) + [0.0]), ('v', [-1.0] + [2.0] * (K - 1)), ('v', []),
+                                      ('m', [2.0] * K, 'col'), ('m', [2.0] * K, 'row'), ('m', [2.0] * K, '3d')]))
+    if r < bad + 0.12:
         return None
-    sq = [0.25, 1.0, 2.25, 4.0, 9.0, 0.7, 3.3, 12.5]
+    if cur is not None and r < bad + 0.24:
+        eps = rng.choice([1e-6, -1e-6, 1e-7, 3e-8, -2e-5, 5e-6])
+        if len(set(cur)) == 1 and rng.chance(0.5):
+            return ('s', cur[0] * (1.0 + eps))
+        return ('v', [c * (1.0 + (eps if rng.chance(0.7) else 0.0)) for c in cur[:-1]] + [cur[-1] * (1.0 + eps)])
     if rng.chance(0.5):
-        return ('s', rng.choice(sq))
-    return ('v', [rng.choice(sq) for _ in range(K)])
+        return typed(rng, ('s', gen_power_value(rng)))
+    if rng.chance(0.3):      # all users at the same tiny / huge scale
+        sc = 10.0 ** rng.randint(-15, 6)
+        return typed(rng, ('v', [rng.choice(MANT) * sc for _ in range(K)]))
+    return typed(rng, ('v', [gen_power_value(rng) for _ in range(K)]))
 
 
 def gen_ns(rng, K, Nr, Nt, cur):
@@ -486,9 +871,15 @@ def gen_ns(rng, K, Nr, Nt, cur):
 READS = ['rF', 'rFF', 'rW', 'rWH', 'rFWH', 'rFW', 'rNs', 'rP']
 
 
+def cf_ok(K, Nr, Nt, ns):
+    return K == 3 and len(set(Nr + Nt)) == 1 and Nr[0] % 2 == 0 and ns == [Nr[0] // 2] * 3
+
+
 def gen_history(rng, tier, solver=None, length=None):
-    K = rng.choice([2, 3, 3, 3, 4])
     solver = solver or rng.choice(['base', 'base', 'minleak', 'altmin', 'maxsinr', 'mmse', 'closed'])
+    K = rng.choice([2, 3, 3, 3, 4])
+    if solver == 'base' and rng.chance(0.12):
+        K = 1                                   # class R5: a single user (one-element power vectors)
     cf_system = solver not in ('base', 'closed') and rng.chance(0.15)
     if solver == 'closed':
         K = 3 if rng.chance(0.9) else rng.choice([2, 4])
@@ -500,48 +891,100 @@ def gen_history(rng, tier, solver=None, length=None):
         Nr, Nt = [n] * K, [n] * K
     else:
         Nr, Nt = gen_dims(rng, K)
-    case = {'K': K, 'Nr': Nr, 'Nt': Nt, 'chan_seed': rng.below(2 ** 31), 'solver': solver, 'iters': rng.randint(1, 3),
-            'best': rng.chance(0.3),
-            'noise': (rng.choice([None, 0.01, 0.1, 0.01, 0.1, 1.0]) if solver in ('mmse', 'maxsinr') else None),
+    grid = rng.chance(0.4)        # matrices exact in every element type (needed for the R1 variants)
+    case = {'K': K, 'Nr': Nr, 'Nt': Nt, 'chan_seed': rng.below(2 ** 31), 'solver': solver,
+            'iters': rng.choice([0, 1, 1, 2, 3]), 'best': rng.chance(0.3),
+            'noise': (rng.choice([None, 0.01, 0.1, 0.01, 0.1, 1.0]) if solver in ('mmse', 'maxsinr')
+                      else rng.choice([None, None, 0.0])),
+            'chan_scale': rng.choice([1.0, 1.0, 1.0, 1e-6, 1e-3, 1e3, 1e6]),
             'ops': []}
+    if grid and rng.chance(0.3) and solver == 'base':
+        case['chan_ty'] = rng.choice(['c64', 'fortran', 'transposed', 'strided'])
+    elif rng.chance(0.15):
+        case['chan_ty'] = rng.choice(['fortran', 'transposed', 'strided', 'reversed'])
     cur = gen_ns(rng, K, Nr, Nt, None)
     if solver == 'closed' or cf_system:
         cur = [Nr[0] // 2] * K
     n = length or (rng.randint(4, 14) if tier == 'quick' else rng.randint(4, 30))
     ops = case['ops']
     curP = [1.0] * K          # the power in force (a given full_F must respect it)
+    iterative = solver not in ('base', 'closed')
+    mode = 'random'
+
+    def ns_arg(ns):
+        v = ns[0] if (len(set(ns)) == 1 and rng.chance(0.5)) else ns
+        return vary_ns(rng, v) if rng.chance(0.3) else v
+
+    def mat_variant(d, mats_real_int_ok):
+        """choose element type / layout / container variants for the matrices of a setter call"""
+        if rng.chance(0.5):
+            d['cty'] = rng.choice(['list', 'tuple', 'objarr'])
+        if rng.chance(0.6):
+            opts = ['fortran', 'transposed', 'strided', 'reversed', 'readonly']
+            if d.get('grid'):
+                opts += ['c64', 'c64']
+                if d.get('real'):
+                    opts += ['real', 'f32']
+                    if mats_real_int_ok:
+                        opts += ['int', 'int16']
+            d['mty'] = rng.choice(opts)
+
     for _ in range(n):
         r = rng.uniform()
-        if r < 0.34:
+        if r < 0.32:
             ops.append([rng.choice(READS)])
-        elif r < 0.50:
-            p = gen_parg(rng, K)
+        elif r < 0.48:
+            p = gen_parg(rng, K, cur=curP)
             if parg_valid(p, K):
                 curP = parg_vec(p, K)
             ops.append(['setP', p])
-        elif r < 0.60:
+        elif r < 0.57:
             ns = gen_ns(rng, K, Nr, Nt, cur)
-            cur = ns
-            nsarg = ns[0] if (len(set(ns)) == 1 and rng.chance(0.5)) else ns
-            p = gen_parg(rng, K)
+            p = gen_parg(rng, K, cur=curP)
             if parg_valid(p, K):
                 curP = parg_vec(p, K)
-            ops.append(['rand', nsarg, p, rng.below(2 ** 31)])
-        elif r < 0.74:
+                cur = ns
+            ops.append(['rand', ns_arg(ns), p, rng.below(2 ** 31)])
+        elif r < 0.71:
             ns = gen_ns(rng, K, Nr, Nt, cur)
-            cur = ns
-            mode = rng.choice(['F', 'F', 'F', 'fullF', 'both', 'neither'])
-            P = None if rng.chance(0.5) else [rng.choice([0.25, 1.0, 4.0, 2.2]) for _ in range(K)]
-            if P is not None and mode != 'neither':
-                curP = list(P)
-            d = {'ns': ns, 'F': rng.below(2 ** 31) if mode in ('F', 'both') else None,
-                 'fullF': rng.below(2 ** 31) if mode in ('fullF', 'both') else None,
+            mode_p = rng.choice(['F', 'F', 'F', 'fullF', 'both', 'neither'])
+            P = None if rng.chance(0.5) else [gen_power_value(rng) for _ in range(K)]
+            if mode_p != 'neither':
+                cur = ns
+                if P is not None:
+                    curP = list(P)
+            d = {'ns': ns, 'F': rng.below(2 ** 31) if mode_p in ('F', 'both') else None,
+                 'fullF': rng.below(2 ** 31) if mode_p in ('fullF', 'both') else None,
                  'P': P, 'amp_P': list(curP)}
+            if grid:
+                d['grid'] = True
+                d['real'] = rng.chance(0.4)
+            if P is not None and rng.chance(0.35):
+                d['pty'] = rng.choice(vec_types(P))
+            # integer element types only for a one-hot precoder that is passed alone (full_F would scale it)
+            mat_variant(d, False)
             ops.append(['setprec', d])
-        elif r < 0.86:
+        elif r < 0.82:
             ns = cur if rng.chance(0.85) else gen_ns(rng, K, Nr, Nt, None)
             which = rng.choice(['W', 'W', 'WH', 'WH', 'both', 'none'])
-            ops.append(['setfilt', {'which': which, 'seed': rng.below(2 ** 31), 'ns': ns}])
+            d = {'which': which, 'seed': rng.below(2 ** 31), 'ns': ns}
+            if grid:
+                d['grid'] = True
+                d['real'] = rng.chance(0.4)
+                d['integer'] = d['real'] and rng.chance(0.5)
+            mat_variant(d, d.get('integer', False))
+            ops.append(['setfilt', d])
+        elif r < 0.87 and iterative:
+            # the validated attribute of the iterative solvers, accepted and rejected values (class R4)
+            if rng.chance(0.55):
+                v = rng.choice(BAD_INIT + (['alt_min'] if solver == 'altmin' else []))
+            else:
+                opts = ['random', 'svd'] + (['alt_min'] if solver != 'altmin' else [])
+                if cf_ok(K, Nr, Nt, cur):
+                    opts.append('closed_form')
+                v = rng.choice(opts)
+                mode = v
+            ops.append(['setinit', v])
         elif r < 0.97 and solver != 'base':
             if solver == 'closed':
                 ns = [Nr[0] // 2] * K
@@ -551,18 +994,20 @@ def gen_history(rng, tier, solver=None, length=None):
                 ns = gen_ns(rng, K, Nr, Nt, cur)
                 if solver == 'minleak' and rng.chance(0.5):
                     ns = [1] * K
-            cur = ns
-            nsarg = ns[0] if (len(set(ns)) == 1 and rng.chance(0.5)) else ns
             init = None
             if solver != 'closed':
-                init = rng.choice(['random', 'random', 'svd',
-                                   'closed_form' if (K == 3 and Nr == Nt and len(set(Nr)) == 1 and Nr[0] % 2 == 0
-                                                     and ns == [Nr[0] // 2] * 3) else 'random',
-                                   'alt_min' if solver != 'altmin' else 'random'])
-            p = gen_parg(rng, K, bad=0.08)
+                if rng.chance(0.3) and (mode != 'closed_form' or cf_ok(K, Nr, Nt, ns)):
+                    init = None                     # keep the mode in force
+                else:
+                    init = rng.choice(['random', 'random', 'svd',
+                                       'closed_form' if cf_ok(K, Nr, Nt, ns) else 'random',
+                                       'alt_min' if solver != 'altmin' else 'random'])
+                    mode = init
+            p = gen_parg(rng, K, bad=0.1, cur=curP)
             if parg_valid(p, K) and not (solver == 'closed' and K != 3):
                 curP = parg_vec(p, K)
-            ops.append(['solve', nsarg, p, rng.below(2 ** 31), init])
+                cur = ns
+            ops.append(['solve', ns_arg(ns), p, rng.below(2 ** 31), init])
         else:
             curP = [1.0] * K
             ops.append(['clear'])
@@ -628,6 +1073,25 @@ def correspond_histories(ctx, cases):
                 ok = False
                 ctx.corr('history', {'case': h.case, 'op_index': i}, 'op %d %s -> %s' % (i, op[0], out_repr(out)),
                          'op %d %s -> %s' % (i, op[0], out_repr(mo)), key=('hist', repr(h.case)))
+            # class R3: at the END of the history the object an earlier getter returned still holds the model's value
+            # for that moment, and every argument is what it was when it was handed over
+            ret, inps = h.kept[i]
+            if ok and out[0] == 'arr' and ret is not None:
+                now = ('arr', [None if m is None else np.array(m) for m in ret]) + tuple(out[2:])
+                if not outs_agree(now, mo):
+                    ok = False
+                    ctx.corr('history.R3-returned-array-changed-later', {'case': h.case, 'op_index': i},
+                             'op %d %s returned %s, which later became %s' % (i, op[0], out_repr(out)[:150], out_repr(now)[:150]),
+                             'unchanged', key=('histR3', repr(h.case)))
+            for lab, obj, snap in inps:
+                if ok and not same_frozen(freeze(obj), snap):
+                    ok = False
+                    ctx.corr('history.R3-argument-modified', {'case': h.case, 'op_index': i},
+                             'argument %s of op %d %s was modified' % (lab, i, op[0]), 'unchanged',
+                             key=('histR3', repr(h.case)))
+        for c in case_classes(h.case):
+            ctx.branch('corr:' + c)
+        ctx.branch('corr:R3')
         if ok:
             ctx.corr('history', h.case, 'agree', 'agree', nontrivial=len(h.case['ops']) >= 3, key=('hist', repr(h.case)))
         ctx.evaluations += len(h.outs)
@@ -645,21 +1109,22 @@ def check_relations(s, ch, K, exact_power, kind, want_filters=True):
     F = s.F
     if F is None:
         return None
-    P = np.asarray(s.P, dtype=float)
+    F = [np.asarray(m, dtype=complex) for m in F]       # the oracle computes in double precision
+    P = np.asarray(s.P, dtype=float).reshape(-1)
     Ns = s.Ns
     for k in range(K):
         if abs(fro(F[k]) - 1.0) > 1e-9:
             return 'unit-norm', 'user %d: ||F||=%r' % (k, fro(F[k]))
         if Ns is None or int(Ns[k]) != F[k].shape[1]:
             return 'stream-count', 'user %d: Ns=%r, F has %d columns' % (k, None if Ns is None else int(Ns[k]), F[k].shape[1])
-    fF = s.full_F
+    fF = [np.asarray(m, dtype=complex) for m in s.full_F]
     for k in range(K):
         pw = fro(fF[k]) ** 2
         if pw > P[k] * (1 + power_tol(kind)):
             return 'power', 'user %d: ||full_F||^2=%r > P=%r' % (k, pw, P[k])
-        if exact_power and abs(pw - P[k]) > 1e-9 * max(1.0, P[k]):
+        if exact_power and abs(pw - P[k]) > 1e-11 * P[k]:
             return 'power', 'user %d: ||full_F||^2=%r != P=%r' % (k, pw, P[k])
-        if not mat_close(fF[k], F[k] * fro(fF[k]), 1e-9):
+        if not mat_close(fF[k], np.asarray(F[k]) * fro(fF[k]), 1e-7):
             return 'direction', 'user %d: full_F is not a positive multiple of F' % k
     if not want_filters:
         return None
@@ -670,9 +1135,12 @@ def check_relations(s, ch, K, exact_power, kind, want_filters=True):
     for k in range(K):
         if not mat_close(W[k], Hm(WH[k]), 1e-12):
             return 'W-vs-W_H', 'user %d' % k
-    conform = all(WH[k].shape == (F[k].shape[1], ch.Nr[k]) for k in range(K))
+        if np.asarray(W[k]).dtype.kind in 'iu' and np.asarray(WH[k]).dtype.kind not in 'iu':
+            return 'W-vs-W_H', 'user %d: integer truncation' % k
+    conform = all(np.shape(WH[k]) == (np.shape(F[k])[1], ch.Nr[k]) for k in range(K))
     if not conform:
         return None
+    WH = [np.asarray(m, dtype=complex) for m in WH]
     conds = [np.linalg.cond(WH[k] @ Hkl(ch, k, k) @ fF[k]) for k in range(K)]
     if max(conds) > 1e6:
         return None
@@ -694,7 +1162,7 @@ def check_relations(s, ch, K, exact_power, kind, want_filters=True):
         cw = float(np.linalg.cond(WH[k]))
         if cw < 1e6:
             R = fWH[k] - fWH[k] @ np.linalg.pinv(WH[k]) @ WH[k]
-            if float(np.abs(R).max()) > (1e-10 * cw * conds[k] + 1e-9) * max(1.0, float(np.abs(fWH[k]).max())):
+            if float(np.abs(R).max()) > (1e-10 * cw * conds[k] + 1e-9) * float(np.abs(fWH[k]).max()):
                 return 'filter-rowspace', 'user %d: full_W_H is not (post-processing matrix) x W_H: residual %.3e' % (
                     k, float(np.abs(R).max()))
         if not mat_close(fW[k], Hm(fWH[k]), 1e-12):
@@ -715,29 +1183,186 @@ def solve_defined(kind, K, Nr, Nt, ns, init, noise=None):
     return True
 
 
+FIELDS = ['_F', '_full_F', '_W', '_W_H', '_full_W_H', '_full_W', '_P', '_Ns']
+MUTATORS = ('setP', 'rand', 'setprec', 'setfilt', 'solve', 'clear', 'setinit')
+
+
+def freeze(v):
+    """deep, independent copy of an argument / attribute for later comparison"""
+    if v is None or isinstance(v, (int, float, str, bool)):
+        return v
+    if isinstance(v, np.ndarray) and v.dtype != object:
+        return np.array(v, copy=True)
+    if isinstance(v, (list, tuple, np.ndarray)):
+        return [freeze(m) for m in v]
+    return copy.deepcopy(v)
+
+
+def same_frozen(a, b):
+    if a is None or b is None:
+        return a is None and b is None
+    if isinstance(a, list) or isinstance(b, list):
+        return isinstance(a, list) and isinstance(b, list) and len(a) == len(b) and \
+            all(same_frozen(x, y) for x, y in zip(a, b))
+    if isinstance(a, np.ndarray) or isinstance(b, np.ndarray):
+        a, b = np.asarray(a), np.asarray(b)
+        return a.shape == b.shape and bool(np.array_equal(a, b, equal_nan=True))
+    return a == b
+
+
+def observables(s):
+    d = {f: freeze(getattr(s, f)) for f in FIELDS}
+    for f in ('_initialize_with', 'max_iterations', 'relative_factor', '_use_best_init'):
+        if hasattr(s, f):
+            d[f] = getattr(s, f)
+    return d
+
+
+def first_difference(a, b):
+    for f in a:
+        if f not in b or not same_frozen(a[f], b[f]):
+            return f
+    return None
+
+
+def leaves(v):
+    """the numeric arrays inside an argument / attribute"""
+    if isinstance(v, np.ndarray) and v.dtype != object:
+        return [v]
+    if isinstance(v, (list, tuple, np.ndarray)):
+        return [x for m in v for x in leaves(m)]
+    return []
+
+
+def outs_equal(a, b, rtol=1e-12):
+    if a[0] != b[0]:
+        return False
+    if a[0] == 'arr':
+        return len(a[1]) == len(b[1]) and all(
+            (x is None and y is None) or (x is not None and y is not None and mat_close(x, y, rtol))
+            for x, y in zip(a[1], b[1]))
+    if a[0] == 'none':
+        return True
+    return a[1:] == b[1:]
+
+
+class Other:
+    """a second solver working on the SAME channel object as the solver under test (class R7)"""
+
+    def __init__(self, ch, K, Nr, Nt, seed):
+        self.s = make_solver('minleak' if K >= 2 else 'base', ch)
+        self.K, self.Nr, self.Nt, self.seed = K, Nr, Nt, seed
+        self.log = []
+
+    def act(self, stage):
+        s = self.s
+        if stage == 0:
+            s._rs = np.random.RandomState(self.seed)
+            s.randomizeF(1, 2.0)
+            s.set_receive_filters(W=objarr(gen_unit(self.seed + 1, self.Nr, [1] * self.K)))
+            self.log.append([np.array(m) for m in s.full_W_H] + [np.array(m) for m in s.full_F])
+        else:
+            s.P = 5.0
+            self.log.append([np.array(m) for m in s.full_W_H] + [np.array(m) for m in s.full_F])
+
+
+def tags_class(h, i):
+    """R-class tags of the variant arguments of the last mutator at or before op i"""
+    for j in range(i, -1, -1):
+        if h.case['ops'][j][0] in MUTATORS:
+            return ('[' + ','.join(sorted(h.tags[j])) + ']') if h.tags[j] else ''
+    return ''
+
+
 def o_history(case):
-    """the relations of the property after every operation of a history (getters read on a deep copy)"""
+    """the relations of the property after every operation of a history (getters read on a deep copy), and the
+    robustness classes: R3 arguments are not modified / returned arrays do not change later / internals do not alias
+    the arguments; R4 a rejected call changes nothing and the object goes on like one that never saw it; R7 a second
+    solver on the same channel object does not interfere, the channel is not modified, and after the history the
+    object solves like a freshly built one"""
     h = Hist(case)
+    twin = Hist(case)                      # never sees the rejected calls, has its channel for itself
     K = h.K
+    other = Other(h.ch, K, h.Nr, h.Nt, case['chan_seed'] % 1000 + 7)
+    other_ref = Other(case_channel(case), K, h.Nr, h.Nt, case['chan_seed'] % 1000 + 7)
+    chan0 = np.array(h.ch.big_H, copy=True)
+    nops = len(case['ops'])
+    stages = {nops // 3: 0, (2 * nops) // 3: 1}
     exact = True
     last_mut = 'init'
-    ns_guard = False      # a solve rejected for its power argument has already overwritten _Ns (documented guard)
+    skipped = None
+    watched_in = []       # (op index, op name, label, object, snapshot)
+    watched_out = []      # (op index, getter, object, snapshot)
     for i, op in enumerate(case['ops']):
+        name = op[0]
+        if i in stages:
+            try:
+                other.act(stages[i])
+                other_ref.act(stages[i])
+            except Exception as e:
+                return 'shared-channel:other-solver-raises', '%s: %s' % (type(e).__name__, str(e)[:100])
+        before = observables(h.s) if name in MUTATORS else None
+        if name == 'solve' and op[4] is not None and '_initialize_with' in before:
+            before['_initialize_with'] = op[4]      # the op first selects the (valid) initialisation mode
         out = h.do(op)
         h.outs.append(out)
-        name = op[0]
+        sfx = tags_class(h, i)
         if out[0] == 'arr' and any(m is None for m in out[1]):
             return 'half-built-array-returned:' + name, 'op %d: the getter returned an object array holding None' % i
-        if name == 'solve':
+        # ---- R4: a rejected call leaves the object exactly as it was
+        rejected = name in MUTATORS and out[0] == 'err'
+        if name == 'solve' and out[0] == 'err':
             ns = ns_list(op[1], K)
-            if out[0] == 'err' and parg_valid(op[2], K) and solve_defined(h.kind, K, h.Nr, h.Nt, ns, op[4],
-                                                                          case.get('noise')):
-                return ('solve-raises:%s:%s' % (h.kind, 'Ns>=2' if max(ns) >= 2 else 'Ns=1'),
+            init = op[4] if op[4] is not None else h.mode
+            if parg_valid(op[2], K) and solve_defined(h.kind, K, h.Nr, h.Nt, ns, init, case.get('noise')):
+                return ('solve-raises:%s:%s%s' % (h.kind, 'Ns>=2' if max(ns) >= 2 else 'Ns=1', sfx),
                         'op %d: solve raised %s' % (i, out[1]))
             if h.aborted is not None:
                 return None
+        if rejected:
+            # what the harness itself does around the call (mode selection, seeding) also happens on the twin
+            if name == 'solve':
+                if hasattr(twin.s, 'initialize_with') and op[4] is not None:
+                    twin.s.initialize_with = op[4]
+                    twin.mode = op[4]
+                seed_solver(twin.s, op[3])
+            elif name == 'rand':
+                twin.s._rs = np.random.RandomState(op[3])
+            f = first_difference(before, observables(h.s))
+            if f is not None:
+                return ('rejected-call-changed-object:%s:%s' % (name, f),
+                        'op %d: %s raised %s but %s is no longer what it was' % (i, name, out[1], f))
+            skipped = name
+        else:
+            out2 = twin.do(op)
+            twin.outs.append(out2)
+            if not outs_equal(out, out2):
+                why = ('after-rejected:' + skipped) if skipped else ('shared-channel' if other.log else 'not-reproducible')
+                return ('differs-from-twin-object:%s:%s' % (why, name),
+                        'op %d (%s): %s but the twin object gives %s' % (i, name, out_repr(out)[:150], out_repr(out2)[:150]))
+        # ---- R3: arguments are left alone, internals do not share memory with them, returned arrays stay as they were
+        for (j, nm, lab, obj, snap) in watched_in:
+            if not same_frozen(freeze(obj), snap):
+                return 'argument-modified:%s:%s' % (nm, lab), 'op %d (%s) changed the %s passed to op %d' % (i, name, lab, j)
+        for lab, obj, snap in h.last_inputs:
+            if not same_frozen(freeze(obj), snap):
+                return 'argument-modified:%s:%s' % (name, lab), 'op %d changed its own argument %s' % (i, lab)
+            if out[0] != 'err':
+                mine = [x for f in FIELDS for x in leaves(getattr(h.s, f))]
+                if any(np.shares_memory(a, b) for a in leaves(obj) for b in mine if a.size and b.size):
+                    return ('argument-aliased:%s:%s' % (name, lab),
+                            'op %d: the solver keeps (a view of) the caller\'s %s: a later change of the caller\'s array '
+                            'changes the solver' % (i, lab))
+            watched_in.append((i, name, lab, obj, snap))
+        for (j, nm, obj, snap) in watched_out:
+            if not same_frozen(freeze(obj), snap):
+                return ('returned-array-changed:%s:by-%s' % (nm, name),
+                        'the value returned by op %d (%s) changed when op %d (%s) was executed' % (j, nm, i, name))
+        if name in READS and h.last_returned is not None and out[0] != 'err':
+            watched_out.append((i, name, h.last_returned, freeze(h.last_returned)))
+        watched_in, watched_out = watched_in[-10:], watched_out[-10:]
+        # ---- the relations of the property
         if out[0] == 'err':
-            # a rejected call must not break the relations either
             pass
         elif name in ('setP', 'rand', 'clear'):
             exact = True
@@ -750,12 +1375,8 @@ def o_history(case):
             last_mut = name
         elif name == 'setfilt':
             last_mut = name
-        if out[0] == 'err' and name in ('setP', 'rand', 'setprec', 'setfilt', 'solve'):
+        if rejected:
             last_mut = name + '-rejected'
-        if name == 'solve' and out[0] == 'err':
-            ns_guard = True
-        elif out[0] != 'err' and name in ('rand', 'setprec', 'solve', 'clear'):
-            ns_guard = False
         try:
             c = copy.deepcopy(h.s)
             r = check_relations(c, h.ch, K, exact, h.kind)
@@ -764,9 +1385,31 @@ def o_history(case):
                 continue
             r = ('getter-raises', '%s: %s' % (type(e).__name__, str(e)[:100]))
         if r is not None:
-            if r[0] == 'stream-count' and ns_guard:
-                continue
-            return '%s-after:%s' % (r[0], last_mut), 'op %d (%s): %s' % (i, name, r[1])
+            return '%s-after:%s%s' % (r[0], last_mut, sfx), 'op %d (%s): %s' % (i, name, r[1])
+    # ---- R7: the other user of the channel object, the channel object, a freshly built solver
+    if not np.array_equal(np.asarray(h.ch.big_H), chan0):
+        return 'shared-channel:channel-modified', 'big_H of the channel object changed during the history'
+    for a, b in zip(other.log, other_ref.log):
+        if not all(mat_close(x, y, 1e-12) for x, y in zip(a, b)):
+            return ('shared-channel:other-solver-affected',
+                    'a second solver on the same channel object returns other values than on a channel of its own')
+    f = first_difference(observables(h.s), observables(twin.s))
+    if f is not None and not all(mat_close(x, y, 1e-12) for x, y in zip(leaves(getattr(h.s, f)), leaves(getattr(twin.s, f)))):
+        return 'differs-from-twin-object:final-state:%s' % f, 'attribute %s differs from the twin object at the end' % f
+    if h.kind != 'base' and (h.kind not in ('maxsinr', 'mmse') or (case.get('noise') or 0) > 0):
+        ns = [h.Nr[0] // 2] * K if h.kind == 'closed' else [1] * K
+        if h.kind != 'closed' or cf_ok(K, h.Nr, h.Nt, ns):
+            init = None if h.kind == 'closed' else 'svd'
+            fin = ['solve', ns, ('s', 2.0), 4242, init]
+            fresh = Hist(case)
+            o1, o2 = h.do(fin), fresh.do(fin)
+            if o1[0] == 'err':
+                return 'solve-raises:%s:after-history' % h.kind, 'the final solve raised %s' % o1[1]
+            for g in ('rFF', 'rFWH', 'rNs', 'rP'):
+                a, b = h.do([g]), fresh.do([g])
+                if not outs_equal(a, b, 1e-9):
+                    return ('long-lived-object-differs-from-fresh-object:%s' % h.kind,
+                            '%s after the same solve: %s vs %s' % (g, out_repr(a)[:120], out_repr(b)[:120]))
     return None
 
 
@@ -830,14 +1473,15 @@ def o_monotone(case):
     K, Nr, Nt = case['K'], case['Nr'], case['Nt']
     ns = case['Ns']
     kind = case['solver']
-    ch = build_channel(K, Nr, Nt, case['chan_seed'])
+    ch = case_channel(case)
     s = make_solver(kind, ch)
     s.initialize_with = case['init']
-    s._rs = np.random.RandomState(case['seed'])
-    np.random.seed(case['seed'] % (2 ** 32))
+    seed_solver(s, case['seed'])
     P = [float(case['P'])] * K
     cls_sfx = ':Ns>=2' if max(ns) >= 2 else ':Ns=1'
     best = leak_alt if kind == 'altmin' else leak_min
+    # the scale every comparison is relative to: the total interference power that reaches the receivers
+    ref = sum(P[l] * fro(Hkl(ch, k, l)) ** 2 for k in range(K) for l in range(K) if l != k)
     try:
         s._Ns = np.array(ns, dtype=int)
         s._solve_init(np.array(ns, dtype=int), float(case['P']))
@@ -856,15 +1500,15 @@ def o_monotone(case):
     for i in range(1, len(costs)):
         if not feas[i - 1]:
             continue       # a random / foreign start is not a competitor of the eigenvector updates (see theorem)
-        if costs[i] > costs[i - 1] * (1 + 1e-9) + 1e-12:
+        if costs[i] > costs[i - 1] * (1 + 1e-9) + 1e-12 * ref:
             return ('leakage-increases:%s%s' % (kind, cls_sfx),
                     'iteration %d: %.12g -> %.12g' % (i, costs[i - 1], costs[i]))
     for i in range(len(costs)):
-        if abs(own[i] - costs[i]) > 1e-8 * max(1.0, costs[i]):
+        if abs(own[i] - costs[i]) > 1e-8 * costs[i] + 1e-12 * ref:
             return ('get_cost-is-not-the-leakage:%s%s' % (kind, cls_sfx),
                     'iteration %d: get_cost=%.12g leakage=%.12g' % (i, own[i], costs[i]))
     for i in range(1, len(costs)):
-        if feas[i] and abs(opt[i] - costs[i]) > 1e-8 * max(1.0, costs[i]):
+        if feas[i] and abs(opt[i] - costs[i]) > 1e-8 * costs[i] + 1e-12 * ref:
             return ('filters-not-leakage-optimal:%s%s' % (kind, cls_sfx),
                     'iteration %d: leakage=%.12g, reachable %.12g' % (i, costs[i], opt[i]))
     return None
@@ -875,25 +1519,36 @@ def o_solve(case):
     K, Nr, Nt = case['K'], case['Nr'], case['Nt']
     ns = case['Ns']
     kind = case['solver']
-    ch = build_channel(K, Nr, Nt, case['chan_seed'], case.get('noise'))
+    ch = case_channel(case)
     s = make_solver(kind, ch, best=case.get('best', False))
     if kind != 'closed':
         s.max_iterations = case['iters']
         s.initialize_with = case['init']
-    s._rs = np.random.RandomState(case['seed'])
-    np.random.seed(case['seed'] % (2 ** 32))
-    cls_sfx = 'Ns>=2' if max(ns) >= 2 else 'Ns=1'
-    nsarg = ns[0] if (case.get('ns_int') and len(set(ns)) == 1) else np.array(ns, dtype=int)
+    seed_solver(s, case['seed'])
+    tags = sorted(t for t in (ns_tag(case.get('ns_arg')), parg_tag(case['P'])) if t)
+    cls_sfx = ('Ns>=2' if max(ns) >= 2 else 'Ns=1') + (('[' + ','.join(tags) + ']') if tags else '')
+    if case.get('ns_arg') is not None:
+        nsarg = ns_py(case['ns_arg'])
+    else:
+        nsarg = ns[0] if (case.get('ns_int') and len(set(ns)) == 1) else np.array(ns, dtype=int)
+    parg = parg_py(case['P'])
+    snaps = [(lab, obj, freeze(obj)) for lab, obj in (('Ns', nsarg), ('P', parg)) if isinstance(obj, (np.ndarray, list, tuple))]
+    chan0 = np.array(ch.big_H, copy=True)
     try:
-        s.solve(nsarg, parg_py(case['P']))
+        s.solve(nsarg, parg)
     except Exception as e:
         return 'solve-raises:%s:%s' % (kind, cls_sfx), '%s: %s' % (type(e).__name__, str(e)[:120])
+    for lab, obj, snap in snaps:
+        if not same_frozen(freeze(obj), snap):
+            return 'argument-modified:solve:%s' % lab, 'solve changed its argument %s' % lab
+    if not np.array_equal(np.asarray(ch.big_H), chan0):
+        return 'shared-channel:channel-modified', 'solve changed the channel object'
     after = [int(x) for x in s.Ns]
     if after != ns and kind != 'closed':
         # _solve_finalize reduced streams (rank-deficient precoder): allowed, relations must hold for the new counts
         pass
     pv = parg_vec(case['P'], K)
-    if [float(x) for x in s.P] != pv:
+    if [float(x) for x in np.asarray(s.P).reshape(-1)] != pv:
         return 'power-not-stored:%s' % kind, 'P=%r, expected %r' % (list(s.P), pv)
     try:
         r = check_relations(copy.deepcopy(s), ch, K, kind != 'mmse', kind)
@@ -912,15 +1567,86 @@ def o_solve(case):
                 if k != l:
                     x = Hm(W[k]) @ Hkl(ch, k, l) @ s.F[l]
                     scale = np.linalg.norm(Hkl(ch, k, l), 2) * fro(W[k])
-                    if float(np.abs(x).max()) > 1e-8 * max(1.0, scale) * max(1.0, kap / 1e4):
+                    if float(np.abs(x).max()) > 1e-8 * scale * max(1.0, kap / 1e4):
                         return 'not-aligned:closed', 'W_%d^H H_%d%d F_%d = %.3e' % (k, k, l, l, float(np.abs(x).max()))
                     y = s.full_W_H[k] @ Hkl(ch, k, l) @ s.full_F[l]
-                    if float(np.abs(y).max()) > 1e-7 * max(1.0, float(np.abs(s.full_W_H[k]).max()) * scale) * max(1.0, kap / 1e4):
+                    pmax = math.sqrt(max(pv))
+                    if float(np.abs(y).max()) > 1e-7 * float(np.abs(s.full_W_H[k]).max()) * scale * pmax * max(1.0, kap / 1e4):
                         return 'not-aligned:closed', 'full_W_H_%d H_%d%d full_F_%d = %.3e' % (k, k, l, l, float(np.abs(y).max()))
     return None
 
 
 ORACLES = {'history': o_history, 'solve': o_solve, 'monotone': o_monotone}
+
+R1_MAT = ('c64', 'real', 'f32', 'int', 'int16')
+
+
+def power_values(p):
+    if p is None:
+        return []
+    return [p[1]] if p[0] == 's' else list(p[1])
+
+
+def case_classes(case):
+    """the robustness classes R1..R7 a case exercises (computed from the input only)"""
+    out = set()
+    tags = []
+    pws = []
+    if case.get('chan_ty') is not None:
+        out.add('R1' if case['chan_ty'] in R1_MAT else 'R2')
+    if case.get('chan_scale', 1.0) != 1.0:
+        out.add('R6')
+    if case['K'] == 1 or case.get('iters') == 0 or case.get('noise') == 0.0:
+        out.add('R5')
+    if 'ops' not in case:       # solve / monotone case
+        tags += [ns_tag(case.get('ns_arg')), parg_tag(case['P']) if isinstance(case.get('P'), (tuple, list)) else None]
+        pws += power_values(case['P']) if isinstance(case.get('P'), (tuple, list)) else [case.get('P') or 1.0]
+    else:
+        names = [op[0] for op in case['ops']]
+        if any(names.count(m) >= 2 for m in MUTATORS):
+            out.add('R7')
+        for op in case['ops']:
+            if op[0] == 'setP':
+                tags.append(parg_tag(op[1]))
+                pws += power_values(op[1])
+                if not parg_valid(op[1], case['K']):
+                    out.add('R4')
+                    if op[1][0] == 'm':
+                        out.add('R2')
+                    elif any(x == 0 for x in power_values(op[1])):
+                        out.add('R5')
+            elif op[0] in ('rand', 'solve'):
+                tags += [ns_tag(op[1]), parg_tag(op[2])]
+                pws += power_values(op[2])
+                if not parg_valid(op[2], case['K']):
+                    out.add('R4')
+            elif op[0] == 'setprec':
+                d = op[1]
+                if d.get('F') is None and d.get('fullF') is None:
+                    out.add('R4')
+                if d.get('mty') not in (None, 'c'):
+                    out.add('R1' if d['mty'] in R1_MAT else 'R2')
+                if d.get('cty') in ('list', 'tuple'):
+                    out.add('R1')
+                if d.get('P') is not None:
+                    tags.append(parg_tag(('v', d['P'], d.get('pty'))))
+                    pws += list(d['P'])
+            elif op[0] == 'setfilt':
+                d = op[1]
+                if d['which'] in ('both', 'none'):
+                    out.add('R4')
+                if d.get('mty') not in (None, 'c'):
+                    out.add('R1' if d['mty'] in R1_MAT else 'R2')
+                if d.get('cty') in ('list', 'tuple'):
+                    out.add('R1')
+            elif op[0] == 'setinit' and not init_accepted(case['solver'], op[1]):
+                out.add('R4')
+    for t in tags:
+        if t:
+            out.add(t[:2])
+    if any(x > 0 and not (1e-3 <= x <= 1e3) for x in pws):
+        out.add('R6')
+    return out
 
 
 def corpus_cases():
@@ -940,6 +1666,11 @@ def corpus_cases():
 
 def run_oracle(ctx, call, case, key=None):
     ctx.count((call, key if key is not None else repr(case)))
+    for c in case_classes(case):
+        ctx.branch('oracle:' + c)
+    if call == 'history':
+        ctx.branch('oracle:R3')
+        ctx.branch('oracle:R7')
     try:
         r = ORACLES[call](case)
     except core.Infra:
@@ -984,12 +1715,23 @@ def gen_solve_case(rng, kind=None):
         if kind != 'altmin':
             opts.append('alt_min')
         init = rng.choice(opts)
-    sq = [0.25, 1.0, 2.0, 4.0, 10.0, 100.0]
-    P = rng.choice([None, ('s', rng.choice(sq)), ('v', [rng.choice(sq) for _ in range(K)])])
-    return {'solver': kind, 'K': K, 'Nr': Nr, 'Nt': Nt, 'Ns': ns, 'P': P, 'init': init,
-            'iters': rng.choice([1, 2, 5, 12]), 'seed': rng.below(2 ** 31), 'chan_seed': rng.below(2 ** 31),
+    P = None
+    while P is None or not parg_valid(P, K):
+        P = gen_parg(rng, K, bad=0.0)
+        if rng.chance(0.1):
+            P = None
+            break
+    case = {'solver': kind, 'K': K, 'Nr': Nr, 'Nt': Nt, 'Ns': ns, 'P': P, 'init': init,
+            'iters': rng.choice([0, 1, 2, 5, 12]), 'seed': rng.below(2 ** 31), 'chan_seed': rng.below(2 ** 31),
             'best': rng.chance(0.5), 'ns_int': rng.chance(0.5),
-            'noise': rng.choice([1e-3, 0.05, 1.0]) if kind in ('mmse', 'maxsinr') else None}
+            'chan_scale': rng.choice([1.0, 1.0, 1.0, 1e-6, 1e-3, 1e3, 1e6]),
+            'noise': rng.choice([1e-3, 0.05, 1.0]) if kind in ('mmse', 'maxsinr') else rng.choice([None, None, 0.0])}
+    if rng.chance(0.35):
+        v = ns[0] if len(set(ns)) == 1 and rng.chance(0.5) else ns
+        case['ns_arg'] = vary_ns(rng, v)
+    if rng.chance(0.2):
+        case['chan_ty'] = rng.choice(['fortran', 'transposed', 'strided', 'reversed'])
+    return case
 
 
 def gen_monotone_case(rng, kind=None):
@@ -1008,9 +1750,11 @@ def gen_monotone_case(rng, kind=None):
         n = rng.choice([2, 4, 4, 6])
         K, Nr, Nt, ns = 3, [n] * 3, [n] * 3, [n // 2] * 3
         opts = ['closed_form']
-    return {'solver': kind, 'K': K, 'Nr': Nr, 'Nt': Nt, 'Ns': ns, 'P': rng.choice([0.5, 1.0, 4.0, 30.0]),
+    return {'solver': kind, 'K': K, 'Nr': Nr, 'Nt': Nt, 'Ns': ns,
+            'P': rng.choice([0.5, 1.0, 4.0, 30.0]) * (1.0 if rng.chance(0.6) else 10.0 ** rng.randint(-15, 6)),
             'init': rng.choice(opts), 'iters': rng.choice([3, 6, 15]), 'seed': rng.below(2 ** 31),
-            'chan_seed': rng.below(2 ** 31)}
+            'chan_seed': rng.below(2 ** 31), 'chan_scale': rng.choice([1.0, 1.0, 1e-6, 1e-3, 1e3, 1e6]),
+            'noise': rng.choice([None, None, 0.0])}
 
 
 # ------------------------------------------------------------------ formula correspondence
@@ -1028,7 +1772,7 @@ class Tap:
                       (alg, 'least_right_singular_vectors', alg.least_right_singular_vectors),
                       (np.linalg, 'solve', np.linalg.solve), (np.linalg, 'pinv', np.linalg.pinv),
                       (np.linalg, 'inv', np.linalg.inv), (np.linalg, 'eig', np.linalg.eig),
-                      (optimize, 'newton', optimize.newton)]
+                      (optimize, 'newton', optimize.newton), (optimize, 'brentq', optimize.brentq)]
         for mod, name, f in self.saved:
             setattr(mod, name, self.wrap(name, f))
         return self
@@ -1084,16 +1828,20 @@ def correspond_formulas_systems(ctx, n):
         Nr, Nt = gen_dims(rng, K)
         lim = [min(a, b) - 1 for a, b in zip(Nr, Nt)]
         ns = [rng.randint(1, x) for x in lim]
+        sc = rng.choice([1.0, 1.0, 1e-6, 1e-3, 1e3, 1e6])
         noise = rng.choice([None, None, 0.01, 0.3])
+        if noise is not None:
+            noise = noise * sc * sc
         seed = rng.below(2 ** 31)
-        ch = build_channel(K, Nr, Nt, seed, noise)
+        ch = build_channel(K, Nr, Nt, seed, noise, sc)
+        ctx.branch('formula:scale' if sc != 1.0 else 'formula:unit-scale')
         H = [[Hkl(ch, k, l) for l in range(K)] for k in range(K)]
         rs = np.random.RandomState(seed + 1)
         F = gen_unit(seed + 2, Nt, ns)
         W = gen_unit(seed + 3, Nr, ns)
         # orthonormal basis of an (Nr-Ns)-dimensional subspace, as peig would return
         C = [np.linalg.qr(cplx(rs, Nr[k], Nr[k]))[0][:, :Nr[k] - ns[k]] for k in range(K)]
-        P = [rng.choice([0.25, 1.0, 2.0, 7.5]) for _ in range(K)]
+        P = [gen_power_value(rng) for _ in range(K)]
         idx = rng.below(K)
         rep = drv.ask([form_line(K, Nr, Nt, ns, H, F, W, C, P, noise, idx)])[0].split('/')
         case = {'K': K, 'Nr': Nr, 'Nt': Nt, 'Ns': ns, 'seed': seed, 'noise': noise, 'idx': idx, 'P': P}
@@ -1112,14 +1860,15 @@ def correspond_formulas_systems(ctx, n):
         except AssertionError:
             ok = False
         ctx.corr('formula.calc_Q_rev', case, 'match' if ok else 'differs', 'match', key=('Qrev', it))
-        ok = core.close(float(np.real(s.get_cost())), dec_c(rep[3]).real) and abs(dec_c(rep[3]).imag) <= 1e-9
+        ok = rel_close(float(np.real(s.get_cost())), dec_c(rep[3]).real) and \
+            abs(dec_c(rep[3]).imag) <= 1e-9 * abs(dec_c(rep[3]).real)
         ctx.corr('formula.minleak.get_cost', case, 'match' if ok else repr(s.get_cost()),
                  'match' if ok else repr(dec_c(rep[3])), key=('mlc', it))
         # --- alternating minimisation: cost, matrix handed to leig, zero forcing rows
         a = make_solver('altmin', ch)
         a.set_precoders(F=objarr(F), P=np.array(P))
         a._C = objarr(C)
-        ok = core.close(float(np.real(a.get_cost())), dec_c(rep[4]).real)
+        ok = rel_close(float(np.real(a.get_cost())), dec_c(rep[4]).real)
         ctx.corr('formula.altmin.get_cost', case, 'match' if ok else repr(a.get_cost()),
                  'match' if ok else repr(dec_c(rep[4])), key=('amc', it))
         with Tap() as tap:
@@ -1170,7 +1919,10 @@ def correspond_formulas_systems(ctx, n):
             HU = dec_dm(rep[7])
             condS = np.linalg.cond(S)
             nt = tap.calls('newton')
-            mu = float(nt[-1][2]) if nt else 0.0
+            bq = tap.calls('brentq')        # the bracketing fallback when newton's result misses the constraint
+            mu = float(bq[-1][2]) if bq else (float(nt[-1][2]) if nt else 0.0)
+            if bq:
+                ctx.branch('mmse:bracketed')
             if condS <= 5e4 and abs(mu) <= 1e20:     # the two `pragma: no cover` branches are out of the model
                 r3 = drv.ask(['mmse %s %s %s %s' % (enc_dm(S), enc_dm(HU), core.f2s(P[idx]), core.f2s(mu))])[0].split('/')
                 c0 = dec_c(r3[0]).real
@@ -1311,7 +2063,9 @@ def check(ctx):
                 '>= 3 ops / distinct (formula, system) / distinct oracle case')
     core.prove(ctx, MODULE, drivers=[DRIVER], scratch=ctx.scratch)
     ctx.required_branches = ['op:setP', 'op:rand', 'op:setprec', 'op:setfilt', 'op:solve', 'op:clear', 'op:rFWH',
-                             'op:rFW', 'op:rFF', 'out:err:ValueError', 'out:err:RuntimeError', 'out:err:TypeError',
+                             'op:rFW', 'op:rFF', 'op:setinit', 'out:err:ValueError', 'out:err:RuntimeError',
+                             'out:err:TypeError'] + ['corr:R%d' % i for i in range(1, 8)] + [
+                             'oracle:R%d' % i for i in range(1, 8)] + ['formula:scale',
                              'formula:system', 'formula:closed', 'formula:store', 'oracle-ok:solve',
                              'oracle-ok:monotone', 'oracle-ok:history']
     nh = 300 if quick else 5000
